@@ -147,3 +147,8 @@ Lemma ex_relocate_expr_rel : exists h2,
   relocate_holder ex_abs (Some 3) [SRel 4 1311768467463790320] 4194304 = inr ROutOfRange /\
   relocate_holder ex_abs (Some 3) [SRel 12 4198400] 4194304 = inr RInvalidEntry.
 Proof. eexists. split; [vm_compute; reflexivity|]. repeat split; vm_compute; reflexivity. Qed.
+
+(* lookups on the reachable example holder: found (the first of that name), not found, key too long *)
+Lemma ex_by_name : reachable ex_h3 /\ section_by_name ex_h3 [46; 100] = Some 1 /\ section_by_name ex_h3 [46; 98] = Some 2 /\
+  section_by_name ex_h3 [120] = None /\ section_by_name ex_h3 (repeat 65 36) = None.
+Proof. split; [exact ex_reachable|]. repeat split; vm_compute; reflexivity. Qed.
